@@ -53,7 +53,7 @@ BOOL_FLAG = {('xmldecl', False): '--no-xmldecl', ('svgns', False): '--no-namespa
 
 def gen_cases(tier, seed):
     rng = random.Random(seed * 217645199 + 12)
-    n = 420 if tier == 'quick' else 5000
+    n = 420 if tier == 'quick' else 25000
     cases = []
     for i in range(n):
         kind = KINDS[i % len(KINDS)] if rng.random() < 0.7 else rng.choice(['png', 'svg'])
